@@ -42,6 +42,8 @@ import (
 	"github.com/mmcloughlin/addchain"
 	"github.com/mmcloughlin/addchain/alg"
 	"github.com/mmcloughlin/addchain/alg/binary"
+	"github.com/mmcloughlin/addchain/alg/contfrac"
+	"github.com/mmcloughlin/addchain/alg/dict"
 	acexec "github.com/mmcloughlin/addchain/alg/exec"
 )
 
@@ -649,8 +651,75 @@ func genC12(g *Gen) {
 			}
 		}
 	}
+	c12SharedSeq(g)
 	if g.Thorough {
 		c12Race(g)
+	}
+}
+
+// c12SharedSeq: real dictionary algorithms built the way the ensemble builds them -- ONE sequence
+// algorithm value handed to every dictionary algorithm -- with continued-fraction strategies that
+// propose several k (dyadic, fermat; the dictionary entries have at most 9 bits), executed in parallel.
+// The results must equal those of executing each algorithm alone with a sequence algorithm of its
+// own. State shared through the sequence algorithm shows as a difference or as a fatal error of the Go
+// runtime (concurrent map access), which the pending-case record turns into a replay.
+func c12SharedSeq(g *Gen) {
+	targets := []*big.Int{new(big.Int).Sub(new(big.Int).Lsh(big.NewInt(1), 255), big.NewInt(21)), g.R.Bits(192), g.R.Bits(160)}
+	build := func(seq func() alg.SequenceAlgorithm) []alg.ChainAlgorithm {
+		as := []alg.ChainAlgorithm{}
+		for k := uint(2); k <= 9; k++ {
+			as = append(as, dict.NewAlgorithm(dict.SlidingWindow{K: k}, seq()))
+			as = append(as, dict.NewAlgorithm(dict.FixedWindow{K: k}, seq()))
+			as = append(as, dict.NewAlgorithm(dict.Hybrid{K: k, T: 16}, seq()))
+		}
+		return as
+	}
+	for _, st := range []contfrac.Strategy{contfrac.DyadicStrategy{}, contfrac.FermatStrategy{}} {
+		for _, n := range targets {
+			if n.Sign() <= 0 {
+				continue
+			}
+			// reference: every algorithm executed alone with a sequence algorithm of its own
+			alone := build(func() alg.SequenceAlgorithm { return contfrac.NewAlgorithm(st) })
+			want := make([]acexec.Result, len(alone))
+			for i, a := range alone {
+				i, a := i, a
+				safe(func() { want[i].Chain, want[i].Err = a.FindChain(n) })
+			}
+			// parallel runs, each over a freshly built list around ONE sequence algorithm (cold state)
+			for round := 0; round < g.pick(12, 60); round++ {
+				g.Pending("c12sharedseq", st.String(), n.String(), strconv.Itoa(round))
+				shared := contfrac.NewAlgorithm(st)
+				par := build(func() alg.SequenceAlgorithm { return shared })
+				var rs []acexec.Result
+				pn := safe(func() {
+					ex := acexec.NewParallel()
+					ex.SetConcurrency(16)
+					rs = ex.Execute(n, par)
+				})
+				g.Count("shared-sequence-algorithm")
+				msg := ""
+				if pn != "" {
+					msg = "Execute panics: " + pn
+				} else if len(rs) != len(par) {
+					msg = fmt.Sprintf("%d results for %d algorithms", len(rs), len(par))
+				} else {
+					for i := range par {
+						same := (want[i].Err == nil) == (rs[i].Err == nil) && len(want[i].Chain) == len(rs[i].Chain)
+						for j := 0; same && j < len(want[i].Chain); j++ {
+							same = want[i].Chain[j].Cmp(rs[i].Chain[j]) == 0
+						}
+						if !same {
+							msg = fmt.Sprintf("result %d (%v) differs from the algorithm executed alone", i, par[i])
+							break
+						}
+					}
+				}
+				if msg != "" && !g.notesViolation() {
+					g.Notes = append(g.Notes, fmt.Sprintf("VIOLATION: %s dictionary algorithms sharing one sequence algorithm, n=%v, round %d: %s", st, n, round, msg))
+				}
+			}
+		}
 	}
 }
 
